@@ -9,7 +9,8 @@
 
    PARTIAL with respect to the property text: the model assumes what it cannot
    exhibit - fs::rename replaces the path atomically, sync_data makes the bytes
-   durable, the temp name chewing-<usec>.dat is not in use, one process and one
+   durable, the temp name is not in use by anybody else (for two dictionaries of one
+   process in one directory: the theorems at the end of this file), one process and one
    TrieBuf per path, no I/O errors, threads interleave at the named points.  The
    byte encoding is abstract here (C11/C12 own it). *)
 From Coq Require Import NArith List Bool.
@@ -175,3 +176,34 @@ Example C10_nonvacuous_crash :
   st_pc s = Crashed /\ disk_table s 8 = Some [(1, 1); (7, 7)] /\
   decode (fs_tmp (st_fs s)) = None.
 Proof. vm_compute. repeat split. Qed.
+
+(* ---- two dictionaries of one process in ONE directory, written at the same time (Model/Staging.v: names -> inodes ->
+   contents; create = new inode or the existing one truncated, write through the handle, rename) ----
+   With different staging names - four different names in all - EVERY interleaving of the two writers' steps, from any
+   directory that holds neither staging name, ends with each target holding exactly what its own writer wrote and no
+   staging file left.  /repo commit ed92e26 makes the names different (process id + a process-wide sequence number;
+   the check reads that off the source of TrieBuilder::build on every run). *)
+From LC Require Import Model.Staging Proofs.StagingProofs.
+Theorem C10_two_dictionaries_in_one_directory_do_not_disturb_each_other : forall p1 p2 : wparams,
+  w_stage p1 <> w_stage p2 /\ w_stage p1 <> w_target p1 /\ w_stage p1 <> w_target p2 /\
+  w_stage p2 <> w_target p1 /\ w_stage p2 <> w_target p2 /\ w_target p1 <> w_target p2 ->
+  forall (dir ino : fmap) (next : N) (sched : list bool),
+  Bound dir next -> dir (w_stage p1) = None -> dir (w_stage p2) = None ->
+  let s := srun p1 p2 (sinit dir ino next) sched in
+  both_done s = true ->
+  file_of s (w_target p1) = Some (w_data p1) /\ file_of s (w_target p2) = Some (w_data p2) /\
+  s_dir s (w_stage p1) = None /\ s_dir s (w_stage p2) = None.
+Proof. exact private_staging_names_keep_the_dictionaries_apart. Qed.
+Print Assumptions C10_two_dictionaries_in_one_directory_do_not_disturb_each_other.
+
+(* the pinned code named the staging file after the microsecond of the clock: two builds in the same microsecond share
+   it.  Witness (create1 create2 write1 write2 rename1 rename2): the first target ends with the SECOND dictionary's
+   contents and the second dictionary's accepted change is lost (its rename finds no staging file) - observed on the
+   pinned tree by vharness c10 `pair` in about one round of a hundred; the same schedule with two names is fine *)
+Theorem C10_shared_staging_file_pinned_refuted :
+  (let s := srun (mkW 7 1 11) (mkW 7 2 22) (sinit pinned_dir pinned_ino 102) [true; false; true; false; true; false] in
+   both_done s = true /\ file_of s 1%N = Some 22%N /\ file_of s 2%N = Some 20%N) /\
+  (let s := srun (mkW 7 1 11) (mkW 8 2 22) (sinit pinned_dir pinned_ino 102) [true; false; true; false; true; false] in
+   both_done s = true /\ file_of s 1%N = Some 11%N /\ file_of s 2%N = Some 22%N).
+Proof. split; [exact shared_staging_name_mixes_the_dictionaries_pinned_refuted | exact shared_staging_name_fixed_example]. Qed.
+Print Assumptions C10_shared_staging_file_pinned_refuted.
